@@ -32,6 +32,7 @@ lower-cased header map, root path, scheme, remote address, content length, netlo
 simple Host forms, the URI, and the body bytes.
 """
 
+import json
 import re
 from urllib.parse import unquote_to_bytes
 
@@ -264,11 +265,28 @@ def sim_kwargs(req, default_ua):
         kw['asgi_chunk_size'] = max(1, req['chunks'][0])
     names = [k for k, _ in headers]
     unique = len(set(names)) == len(names)
-    if st.get('content_type_param') and unique:
+    if (st.get('content_type_param') or st.get('content_type_conflict')) and unique:
         cts = [(k, v) for k, v in headers if k.lower() == 'content-type']
         if len(cts) == 1:
-            headers = [h for h in headers if h[0].lower() != 'content-type']
+            if st.get('content_type_conflict'):
+                # documented: the content_type argument takes precedence over a Content-Type given in headers
+                headers = [((k, 'text/x-decoy') if k.lower() == 'content-type' else (k, v)) for k, v in headers]
+            else:
+                headers = [h for h in headers if h[0].lower() != 'content-type']
             kw['content_type'] = cts[0][1]
+    if st.get('json_param') and unique and body and 'content_type' not in kw:
+        cts = [(k, v) for k, v in headers if k.lower() == 'content-type']
+        if len(cts) == 1 and cts[0][1] == 'application/json':
+            try:
+                obj = json.loads(body.decode('utf-8'))
+                same = obj is not None and json.dumps(obj, ensure_ascii=False).encode('utf-8') == body
+            except ValueError:
+                same = False
+            if same:
+                # documented: json= serialises the document as the body and sets Content-Type: application/json
+                headers = [h for h in headers if h[0].lower() != 'content-type']
+                del kw['body']
+                kw['json'] = obj
     if st.get('cookies_param') and req['method'] != 'OPTIONS':
         cks = [(k, v) for k, v in headers if k.lower() == 'cookie']
         if len(cks) == 1:
